@@ -328,7 +328,7 @@ func (c *Counter) classify(st *Store, info StepInfo) string {
 			return fmt.Sprintf("put-failed:mode%d-%s", op.Mode, ctxs)
 		}
 		if op.Root >= 0 && len(op.Chs) >= 2 {
-			return fmt.Sprintf("put-batch-context:mode%d", op.Mode)
+			return "batch-under-context"
 		}
 		return fmt.Sprintf("put-single:mode%d-%s", op.Mode, ctxs)
 	case "set":
@@ -339,7 +339,7 @@ func (c *Counter) classify(st *Store, info StepInfo) string {
 			return "set-sync"
 		}
 		if op.Root >= 0 && len(op.Addrs) >= 2 {
-			return fmt.Sprintf("set-batch-context:mode%d", op.Mode)
+			return "batch-under-context"
 		}
 		return fmt.Sprintf("set-single:mode%d-%s", op.Mode, ctxs)
 	case "gcend":
@@ -363,17 +363,15 @@ func (c *Counter) Step(st *Store, info StepInfo, run *hx.Run, hist *Hist) {
 			c.gcPrev = d
 		}
 	}()
-	if info.Kind == "gcend" && info.Err == 0 && info.Done {
-		// bounded after quiescence
+	if (info.Kind == "gcend" || info.Kind == "gcbegin" && !info.Started) && info.Err == 0 && info.Done {
+		// bounded after quiescence (also a run that found nothing to do has quiesced)
 		run.OracleChecked(1)
-		if !c.Tainted || true {
-			if sum := GCSum(d); sum > st.H.Cap {
-				cls := c.classify(st, info)
-				if c.Tainted {
-					cls = "after-broken-counter"
-				}
-				viol("bounded:"+cls, fmt.Sprintf("collection returned done with gcSize %d but the gc index still records %d cached chunks, capacity %d", d.GCSize, sum, st.H.Cap), sum, st.H.Cap)
+		if sum := GCSum(d); sum > st.H.Cap {
+			cls := "counter-diverged"
+			if info.Kind == "gcend" && c.classify(st, info) == "gc-force-clean" {
+				cls = "gc-force-clean"
 			}
+			viol("bounded:"+cls, fmt.Sprintf("collection returned done with gcSize %d but the gc index still records %d cached chunks, capacity %d", d.GCSize, sum, st.H.Cap), sum, st.H.Cap)
 		}
 	}
 	if info.Running {
